@@ -785,9 +785,9 @@ def random_walk(case: Case, rnd, length: int, malformed: float, solver_p: float,
             case.op_step(a, un=rnd.random() < 0.4)
         elif r < 0.08 and resets:
             case.op_reset()
-        elif r < 0.08 + solver_p:
+        elif solver_p > 0 and r < 0.08 + solver_p:
             case.op_solve(rnd.choice(["greedy", "greedy_worst", "largest", "random"]), rnd.randrange(1000))
-        elif r < 0.08 + solver_p + undo_p and unknown:
+        elif undo_p > 0 and r < 0.08 + solver_p + undo_p and unknown:
             case.op_undo(rnd.choice(unknown))
         elif (r < 0.75 or not known) and unknown:
             case.op_step(rnd.choice(unknown))
